@@ -391,3 +391,35 @@ func VerifHTMLAttrURL(n int) {
 	}
 	vReach("end")
 }
+
+var verifCaseAttrs = [][2]string{{"ol", "type"}, {"li", "type"}, {"ul", "type"}, {"input", "value"}, {"option", "value"}, {"img", "alt"}, {"a", "download"}, {"td", "abbr"}, {"div", "data-x"}, {"meta", "content"}, {"input", "placeholder"}, {"button", "value"}, {"param", "value"}, {"label", "for"}, {"input", "name"}, {"div", "id"}, {"div", "class"}, {"a", "hreflang"}, {"track", "label"}, {"optgroup", "label"}}
+
+// VerifHTMLCaseAttr: <TAG ATTR="V"> for 20 tag/attribute pairs whose value is case-sensitive data (list numbering type,
+// form values, labels, ids), V = n bytes over { A a I i 1 }: the value is kept exactly, in particular its case.
+func VerifHTMLCaseAttr(n int) {
+	v := vBytes("v", n)
+	for _, c := range v {
+		vAssume(vB2I(c == 'A')+vB2I(c == 'a')+vB2I(c == 'I')+vB2I(c == 'i')+vB2I(c == '1') != 0)
+	}
+	p := verifCaseAttrs[vChoice("pair", len(verifCaseAttrs))]
+	in := []byte("<" + p[0] + " " + p[1] + "=\"" + string(v) + "\">t")
+	o := verifSymOptions()
+	out, err := verifHTMLRun(in, o)
+	vReach("after-call")
+	vOutput("out", out)
+	vAssert(err == nil, "accepted")
+	_, attrs, _, ok := rhStartTag(out)
+	vAssert(ok, "output starts with a complete start tag")
+	found := false
+	for _, a := range attrs {
+		if rhEq(a.name, []byte(p[1])) {
+			found = true
+			vAssert(rhEq(a.val, v), "attribute value kept exactly (case included)")
+		}
+	}
+	if !found {
+		// dropped: only a default value may go (ol/ul/li type has none; input type=text is not in the list)
+		vAssert(!o.KeepDefaultAttrVals && false || len(v) == 0, "attribute dropped")
+	}
+	vReach("end")
+}
